@@ -71,6 +71,9 @@ def c04(tier, seed):
     # a GREASE frame and an unknown capsule before the close capsule change nothing
     styles.append(("capsule_after_noise",
                    {"bytes": frame(0x21, b"zz") + frame(0, capsule(0x1234, b"abc")) + close_capsule_frame(77, b"after noise")}))
+    # ... and after it in the same DATA frame: the capsule's own length bounds the reason
+    styles.append(("capsule", {"bytes": frame(0, capsule(0x2843, list((4242).to_bytes(4, "big")) + list(b"exact")) + capsule(0x1234, b"tail"))}))
+    styles.append(("capsule", {"bytes": frame(0, capsule(0x2843, list((7).to_bytes(4, "big"))) + [0x21, 0x03, 1, 2, 3])}))
     styles.append(("fin", {}))
     for c in [0, 0x10C, (1 << 62) - 1]:
         styles.append(("reset", {"code": c}))
